@@ -39,7 +39,7 @@ RULE = ("each run builds an upload tree with symlinks and a prefix-sharing sibli
 PROBES = ["write_fault_mid_file", "write_fault_at_0", "open_fault", "mkdir_fault", "replace_fault",
           "overwrite_existing", "symlink_to_outside", "symlink_inside", "traversal_spelling",
           "sibling_prefix", "delete_request", "token_wrong", "size_over_limit", "via_protocol",
-          "must_succeed_core", "fault_on_existing_file"]
+          "must_succeed_core", "fault_on_existing_file", "handler_from_server_config"]
 COMPONENTS = {
     "real": ["nauyaca.server.handler.FileUploadHandler", "nauyaca.protocol.request.TitanRequest "
              "(parameter parsing)", "nauyaca.server.protocol (content slicing, wire share)",
@@ -98,8 +98,26 @@ def run_one(ch):
     types = ch.pick("types", [None, ["text/plain", "text/gemini"], ["image/png"]], [5, 3, 1])
     delete = bool(ch.choose("delete", 2))
     via_proto = ch.chance("proto", 0.3)
-    handler = FileUploadHandler(U, max_size=max_size, allowed_types=types, auth_tokens=tokens,
-                                enable_delete=delete)
+    if ch.chance("from_config", 0.4):
+        # handler built the way the server builds it: ServerConfig.get_upload_handler()
+        import pathlib
+        from nauyaca.server.config import ServerConfig
+        docroot = os.path.join(root, "docroot")
+        os.makedirs(docroot, exist_ok=True)
+        cfg = ServerConfig(document_root=pathlib.Path(docroot), enable_titan=True,
+                           titan_upload_dir=pathlib.Path(U), titan_max_upload_size=max_size,
+                           titan_allowed_mime_types=types,
+                           titan_auth_tokens=sorted(tokens) if tokens else None,
+                           titan_enable_delete=delete)
+        handler = cfg.get_upload_handler()
+        res.stats["handler_from_server_config"] += 1
+        if handler is None:
+            res.violate("C14/config-built-no-handler",
+                        "ServerConfig with Titan enabled produced no upload handler")
+            return res
+    else:
+        handler = FileUploadHandler(U, max_size=max_size, allowed_types=types, auth_tokens=tokens,
+                                    enable_delete=delete)
     nreq = 1 + ch.choose("nreq", 4, [4, 3, 2, 1])
     FILES.install()
     sigs = []
@@ -220,7 +238,12 @@ def run_one(ch):
                     res.violate(f"C14/non-success-changed-files/{fk}",
                                 f"status {status} but files were created, removed or modified: "
                                 f"{sorted(file_changes)[:4]}", **ctx)
-                if permitted and pclass in ("plain", "plain-existing") and not fired and \
+                parents_ok = all(before.get(os.path.dirname(rel_dest)[:j], ("d",))[0] == "d"
+                                 for j in [i for i, ch_ in enumerate(os.path.dirname(rel_dest) + os.sep)
+                                           if ch_ == os.sep])
+                dest_ok = before.get(rel_dest, (None,))[0] in (None, "f")
+                if permitted and parents_ok and dest_ok and \
+                        pclass in ("plain", "plain-existing") and not fired and \
                         not strictly_forbidden and tokv != 3 and \
                         (size > 0 or before.get(rel_dest, (None,))[0] == "f"):
                     res.violate(f"C14/valid-upload-refused/{pclass}",
